@@ -2,9 +2,81 @@
 
 package c11
 
-import "bytes"
+import (
+	"bytes"
+	"context"
+	"errors"
+	"fmt"
+	"io"
+	"sort"
+	"strings"
+	"time"
 
-// sink is an in-memory raft.SnapshotSink
+	"github.com/hashicorp/go-hclog"
+	"github.com/hashicorp/raft"
+	"google.golang.org/grpc"
+
+	"github.com/hashicorp/consul/acl"
+	"github.com/hashicorp/consul/acl/resolver"
+	"github.com/hashicorp/consul/agent/consul/adapter"
+	"github.com/hashicorp/consul/agent/consul/fsm"
+	"github.com/hashicorp/consul/agent/consul/state"
+	"github.com/hashicorp/consul/agent/consul/stream"
+	"github.com/hashicorp/consul/agent/rpcclient/configentry"
+	"github.com/hashicorp/consul/agent/rpcclient/health"
+	"github.com/hashicorp/consul/agent/structs"
+	"github.com/hashicorp/consul/agent/submatview"
+	raftstorage "github.com/hashicorp/consul/internal/storage/raft"
+	"github.com/hashicorp/consul/proto/private/pbsubscribe"
+	"github.com/hashicorp/consul/zzverif/dump"
+	"github.com/hashicorp/consul/zzverif/fsmkit"
+)
+
+// ---------------- replica: a real FSM + real state store + real (NOT running) event publisher ----------------
+
+type handle struct{}
+
+func (*handle) Apply(msg []byte) (any, error)                 { return nil, errors.New("no apply") }
+func (*handle) IsLeader() bool                                { return true }
+func (*handle) EnsureStrongConsistency(context.Context) error { return nil }
+func (*handle) DialLeader() (*grpc.ClientConn, error)         { return nil, errors.New("no leader dial") }
+
+type replica struct {
+	fsm *fsm.FSM
+	pub *stream.EventPublisher
+}
+
+// newReplica is fsmkit.New with two differences: the snapshot-cache TTL of the publisher is
+// configurable (fsmkit uses 0 = no cache) and the resource-storage backend is not Run (its
+// goroutines are not needed for FSM apply/snapshot/restore and would only clutter the bubble).
+func newReplica(ttl time.Duration) *replica {
+	_ = fsmkit.Encode // fsmkit's init installs the agent bind-address mock the catalog needs
+	logger := hclog.New(&hclog.LoggerOptions{Output: io.Discard, Level: hclog.Off})
+	be, err := raftstorage.NewBackend(&handle{}, logger)
+	if err != nil {
+		panic(err)
+	}
+	pub := stream.NewEventPublisher(ttl)
+	r := &replica{pub: pub}
+	r.fsm = fsm.NewFromDeps(fsm.Deps{
+		Logger:         logger,
+		NewStateStore:  func() *state.Store { return state.NewStateStoreWithEventPublisher(nil, pub) },
+		Publisher:      pub,
+		StorageBackend: be,
+	})
+	return r
+}
+
+func (r *replica) applyBytes(idx uint64, data []byte) any {
+	buf := make([]byte, len(data))
+	copy(buf, data)
+	return r.fsm.Apply(&raft.Log{Index: idx, Term: 1, Type: raft.LogCommand, Data: buf})
+}
+
+func (r *replica) apply(idx uint64, t structs.MessageType, req any) any {
+	return r.applyBytes(idx, fsmkit.Encode(t, req))
+}
+
 type sink struct {
 	bytes.Buffer
 	cancelled bool
@@ -13,3 +85,324 @@ type sink struct {
 func (s *sink) ID() string    { return "verif" }
 func (s *sink) Cancel() error { s.cancelled = true; return nil }
 func (s *sink) Close() error  { return nil }
+
+func (r *replica) snapshotBytes() []byte {
+	snap, err := r.fsm.Snapshot()
+	if err != nil {
+		panic(err)
+	}
+	defer snap.Release()
+	s := &sink{}
+	if err := snap.Persist(s); err != nil {
+		panic(err)
+	}
+	return append([]byte(nil), s.Bytes()...)
+}
+
+func (r *replica) restoreBytes(b []byte) error {
+	return r.fsm.Restore(io.NopCloser(bytes.NewReader(b)))
+}
+
+// ---------------- ACL resolver used by the materializers ----------------
+// Event filtering by permission is C09's subject; here every token may read everything, so that
+// what a subscriber holds is exactly what the stream delivered.
+type allowAll struct{}
+
+func (allowAll) ResolveTokenAndDefaultMeta(string, *acl.EnterpriseMeta, *acl.AuthorizerContext) (resolver.Result, error) {
+	return resolver.Result{Authorizer: acl.ManageAll()}, nil
+}
+
+// ---------------- canonical renderings ----------------
+
+func sortedJoin(lines []string) string {
+	sort.Strings(lines)
+	return strings.Join(lines, "\n")
+}
+
+func csnID(n structs.CheckServiceNode) string {
+	node, svc := "?", "?"
+	if n.Node != nil {
+		node = n.Node.Node + "@" + n.Node.PeerName
+	}
+	if n.Service != nil {
+		svc = n.Service.ID
+	}
+	return node + "/" + svc
+}
+
+func canonCSNs(nodes structs.CheckServiceNodes) string {
+	lines := make([]string, 0, len(nodes))
+	for _, n := range nodes {
+		lines = append(lines, csnID(n)+" = "+dump.Render(n))
+	}
+	return sortedJoin(lines)
+}
+
+func canonEntry(e structs.ConfigEntry) string {
+	if e == nil {
+		return ""
+	}
+	// the Kind FIELD is redundant with the Go type (GetKind() is a constant per type) and is not carried
+	// by the protobuf form of an entry; it is left out of the comparison
+	r := strings.Replace(dump.Render(e), `Kind:"`+e.GetKind()+`" `, "", 1)
+	return e.GetKind() + "/" + e.GetName() + " = " + r
+}
+
+func canonEntries(es []structs.ConfigEntry) string {
+	lines := make([]string, 0, len(es))
+	for _, e := range es {
+		lines = append(lines, canonEntry(e))
+	}
+	return sortedJoin(lines)
+}
+
+// ---------------- service-list view (consul's own one is unexported in proxycfg-glue) ----------------
+// The documented materialisation: a Register update adds the name, a Deregister update removes it.
+type svcListView struct{ names map[string]struct{} }
+
+func newSvcListView() *svcListView { return &svcListView{names: map[string]struct{}{}} }
+func (v *svcListView) Reset()      { v.names = map[string]struct{}{} }
+func (v *svcListView) Update(events []*pbsubscribe.Event) error {
+	for _, e := range events {
+		u := e.GetService()
+		if u == nil {
+			continue
+		}
+		switch u.Op {
+		case pbsubscribe.CatalogOp_Register:
+			v.names[u.Name] = struct{}{}
+		case pbsubscribe.CatalogOp_Deregister:
+			delete(v.names, u.Name)
+		}
+	}
+	return nil
+}
+func (v *svcListView) Result(uint64) any {
+	out := make([]string, 0, len(v.names))
+	for n := range v.names {
+		out = append(out, n)
+	}
+	sort.Strings(out)
+	return out
+}
+
+// ---------------- subjects ----------------
+
+type subject struct {
+	Name    string // e.g. health:web, health:web@peerA, connect:web, resolver:web, resolver:*, defaults:web, svclist:*
+	Class   string // health | connect | config | config-list | service-list  (used in violation keys)
+	newView func() submatview.View
+	request func(token string) func(index uint64) *pbsubscribe.SubscribeRequest
+	direct  func(s *state.Store) (uint64, string) // index and canonical rendering of the equivalent direct query
+	render  func(v any) string                    // canonical rendering of view.Result(..)
+	aux     func(s *state.Store) string           // optional: extra facts recorded per commit, used only to NAME the cause of a mismatch
+}
+
+var defaultMeta = structs.DefaultEnterpriseMetaInDefaultPartition()
+
+func healthSubject(svc, peer string, connect bool) *subject {
+	sreq := structs.ServiceSpecificRequest{Datacenter: "dc1", ServiceName: svc, Connect: connect, PeerName: peer}
+	name, class := "health:"+svc, "health"
+	if connect {
+		name, class = "connect:"+svc, "connect"
+	}
+	if peer != "" {
+		name += "@" + peer
+	}
+	return &subject{
+		Name: name, Class: class,
+		newView: func() submatview.View {
+			v, err := health.NewHealthView(sreq)
+			if err != nil {
+				panic(err)
+			}
+			return v
+		},
+		request: func(token string) func(uint64) *pbsubscribe.SubscribeRequest {
+			r := sreq
+			r.Token = token
+			return health.NewMaterializerRequest(r)
+		},
+		direct: func(s *state.Store) (uint64, string) {
+			var idx uint64
+			var nodes structs.CheckServiceNodes
+			var err error
+			if connect {
+				idx, nodes, err = s.CheckConnectServiceNodes(nil, svc, defaultMeta, peer)
+			} else {
+				idx, nodes, err = s.CheckServiceNodes(nil, svc, defaultMeta, peer)
+			}
+			if err != nil {
+				return idx, "error: " + err.Error()
+			}
+			// what the Health endpoint applies to every answer before it leaves the server
+			cp := make(structs.CheckServiceNodes, len(nodes))
+			for i := range nodes {
+				cp[i] = nodes[i]
+				if nodes[i].Service != nil {
+					s := *nodes[i].Service
+					cp[i].Service = &s
+				}
+			}
+			adapter.PopulateLegacyCheckServiceNodePorts(cp)
+			return idx, canonCSNs(cp)
+		},
+		render: func(v any) string { return canonCSNs(v.(*structs.IndexedCheckServiceNodes).Nodes) },
+	}
+}
+
+func namedReq(topic pbsubscribe.Topic, key string) func(token string) func(uint64) *pbsubscribe.SubscribeRequest {
+	return func(token string) func(uint64) *pbsubscribe.SubscribeRequest {
+		return func(index uint64) *pbsubscribe.SubscribeRequest {
+			return &pbsubscribe.SubscribeRequest{Topic: topic, Datacenter: "dc1", Token: token, Index: index,
+				Subject: &pbsubscribe.SubscribeRequest_NamedSubject{NamedSubject: &pbsubscribe.NamedSubject{Key: key}}}
+		}
+	}
+}
+
+func wildcardReq(topic pbsubscribe.Topic) func(token string) func(uint64) *pbsubscribe.SubscribeRequest {
+	return func(token string) func(uint64) *pbsubscribe.SubscribeRequest {
+		return func(index uint64) *pbsubscribe.SubscribeRequest {
+			return &pbsubscribe.SubscribeRequest{Topic: topic, Datacenter: "dc1", Token: token, Index: index,
+				Subject: &pbsubscribe.SubscribeRequest_WildcardSubject{WildcardSubject: true}}
+		}
+	}
+}
+
+func configSubject(short, kind string, topic pbsubscribe.Topic, name string) *subject {
+	return &subject{
+		Name: short + ":" + name, Class: "config",
+		newView: func() submatview.View { return &configentry.ConfigEntryView{} },
+		request: namedReq(topic, name),
+		direct: func(s *state.Store) (uint64, string) {
+			idx, e, err := s.ConfigEntry(nil, kind, name, defaultMeta)
+			if err != nil {
+				return idx, "error: " + err.Error()
+			}
+			return idx, canonEntry(e)
+		},
+		render: func(v any) string { return canonEntry(v.(*structs.ConfigEntryResponse).Entry) },
+	}
+}
+
+func configListSubject(short, kind string, topic pbsubscribe.Topic) *subject {
+	return &subject{
+		Name: short + ":*", Class: "config-list",
+		newView: func() submatview.View { return configentry.NewConfigEntryListView(kind, *defaultMeta) },
+		request: wildcardReq(topic),
+		direct: func(s *state.Store) (uint64, string) {
+			idx, es, err := s.ConfigEntriesByKind(nil, kind, defaultMeta)
+			if err != nil {
+				return idx, "error: " + err.Error()
+			}
+			return idx, canonEntries(es)
+		},
+		render: func(v any) string { return canonEntries(v.(*structs.IndexedConfigEntries).Entries) },
+	}
+}
+
+// The service-list topic: its snapshot is defined (ServiceListSnapshot) as the names of the services
+// of the TYPICAL kind, so that is the direct query the view is compared with.
+func serviceListSubject() *subject {
+	return &subject{
+		Name: "svclist:*", Class: "service-list",
+		newView: func() submatview.View { return newSvcListView() },
+		request: wildcardReq(pbsubscribe.Topic_ServiceList),
+		direct: func(s *state.Store) (uint64, string) {
+			idx, l, err := s.ServiceNamesOfKind(nil, structs.ServiceKindTypical)
+			if err != nil {
+				return idx, "error: " + err.Error()
+			}
+			seen := map[string]bool{}
+			var names []string
+			for _, n := range l {
+				if !seen[n.Service.Name] {
+					seen[n.Service.Name] = true
+					names = append(names, n.Service.Name)
+				}
+			}
+			return idx, sortedJoin(names)
+		},
+		render: func(v any) string { return sortedJoin(append([]string(nil), v.([]string)...)) },
+		aux: func(s *state.Store) string {
+			var rows []string
+			for _, k := range []structs.ServiceKind{structs.ServiceKindConnectProxy, structs.ServiceKindMeshGateway, structs.ServiceKindTerminatingGateway,
+				structs.ServiceKindIngressGateway, structs.ServiceKindAPIGateway, structs.ServiceKindDestination, structs.ServiceKindConnectEnabled} {
+				_, l, _ := s.ServiceNamesOfKind(nil, k)
+				for _, n := range l {
+					rows = append(rows, n.Service.Name+"|"+string(k))
+				}
+			}
+			return sortedJoin(rows)
+		},
+	}
+}
+
+func allSubjects() []*subject {
+	return []*subject{
+		healthSubject("web", "", false),
+		healthSubject("web", "", true),
+		healthSubject("web", "peerA", false),
+		healthSubject("db", "", false),
+		configSubject("resolver", structs.ServiceResolver, pbsubscribe.Topic_ServiceResolver, "web"),
+		configListSubject("resolver", structs.ServiceResolver, pbsubscribe.Topic_ServiceResolver),
+		configSubject("defaults", structs.ServiceDefaults, pbsubscribe.Topic_ServiceDefaults, "web"),
+		serviceListSubject(),
+	}
+}
+
+// diffClass names HOW two canonical renderings (sets of "id = value" lines) differ; it is part of
+// the violation key so that different defects get different keys.
+func diffClass(want, got string) (class, detail string) {
+	wm, gm := map[string]string{}, map[string]string{}
+	split := func(s string, m map[string]string) {
+		if s == "" {
+			return
+		}
+		for _, l := range strings.Split(s, "\n") {
+			id, val, found := strings.Cut(l, " = ")
+			if !found {
+				val = "present"
+			}
+			m[id] = val
+		}
+	}
+	split(want, wm)
+	split(got, gm)
+	var ids []string
+	for id := range wm {
+		ids = append(ids, id)
+	}
+	for id := range gm {
+		if _, ok := wm[id]; !ok {
+			ids = append(ids, id)
+		}
+	}
+	sort.Strings(ids)
+	for _, id := range ids {
+		w, wok := wm[id]
+		g, gok := gm[id]
+		switch {
+		case wok && !gok:
+			return "missing-in-view", fmt.Sprintf("%s is in the direct query result but not in the view", id)
+		case !wok && gok:
+			for w := range wm {
+				if w != id && strings.EqualFold(w, id) {
+					return "stale-case-variant-node-entry", fmt.Sprintf("%s is in the view next to %s; the direct query result has only %s (node names are case-insensitive in the catalog)", id, w, w)
+				}
+			}
+			return "extra-in-view", fmt.Sprintf("%s is in the view but not in the direct query result", id)
+		case w != g:
+			f := dump.FieldName(w, g)
+			return "field:" + f, fmt.Sprintf("%s differs: %s", id, dump.FieldDiff(w, g))
+		}
+	}
+	return "same", ""
+}
+
+func trunc(s string, n int) string {
+	if len(s) > n {
+		return s[:n] + "…"
+	}
+	return s
+}
